@@ -579,16 +579,18 @@ pub fn c03_real_server_part(ctx: &Ctx, classes: &std::sync::Mutex<std::collectio
     let ks: Vec<usize> = ctx.tier.pick(vec![1, 2, 3, 8, 33], vec![1, 2, 3, 5, 8, 16, 33, 64]);
     let lt_pk = rtref::crypto::public_key(&rtref::crypto::unhex(BASE_SEED_HEX).try_into().unwrap());
     let mut n = 0u64;
-    for batch_size in [64u8, 3] {
+    // (batch_size, num_workers): with several workers the replies of one -n run come from
+    // different workers, each with its own delegated key and certificate
+    for (batch_size, workers) in [(64u8, 1usize), (3, 1), (64, 4)] {
         let (mut sp, port) = start_serving(
             &|port| {
                 let mut w = Written::base(port);
-                w.set("num_workers", "1");
+                w.set("num_workers", &workers.to_string());
                 w.set("batch_size", &batch_size.to_string());
                 w
             },
             Source::File,
-            1,
+            workers,
             Duration::from_secs(10),
         )?;
         if sp.try_status().is_some() {
@@ -617,8 +619,8 @@ pub fn c03_real_server_part(ctx: &Ctx, classes: &std::sync::Mutex<std::collectio
                     let max_index = ex.stderr.lines().filter_map(|l| l.split("merkle_index=").nth(1).and_then(|r| r.trim_end_matches(')').parse::<u32>().ok())).max().unwrap_or(0);
                     let cls = format!("real:p{}:{}:maxidx{}", proto, if ex.code == Some(0) && times.len() == k { "accepted" } else { "rejected" }, if max_index > 0 { ">0" } else { "=0" });
                     *classes.lock().unwrap().entry(cls).or_insert(0) += 1;
-                    let detail = |m: String| json!({"kind":"honest","peer":"real-server","version":if proto == "0" {"classic"} else {"ietf13"},"n":k,"batch_size":batch_size,"key":key.is_some(),"message":m,"exit":ex.code,"stdout":ex.stdout.lines().take(6).collect::<Vec<_>>(),"stderr_first":ex.stderr.lines().filter(|l| l.contains("panicked") || l.contains("Nonce")).take(3).collect::<Vec<_>>()});
-                    let vclass = format!("{}{}", if proto == "0" { "classic" } else { "ietf13" }, if k > 1 { "/n>=2" } else { "/n=1" });
+                    let detail = |m: String| json!({"kind":"honest","peer":"real-server","version":if proto == "0" {"classic"} else {"ietf13"},"n":k,"batch_size":batch_size,"num_workers":workers,"key":key.is_some(),"message":m,"exit":ex.code,"stdout":ex.stdout.lines().take(6).collect::<Vec<_>>(),"stderr_first":ex.stderr.lines().filter(|l| l.contains("panicked") || l.contains("Nonce")).take(3).collect::<Vec<_>>()});
+                    let vclass = format!("{}{}{}", if proto == "0" { "classic" } else { "ietf13" }, if k > 1 { "/n>=2" } else { "/n=1" }, if workers > 1 { "/several-workers" } else { "" });
                     if ex.code != Some(0) || times.len() != k {
                         ctx.violation("honest-reply-rejected", if ex.stderr.contains("merkle") { "merkle" } else { "other" }, &vclass, detail(format!("{} of {} times printed", times.len(), k)));
                         continue;
@@ -661,6 +663,9 @@ pub fn c20_process_part(ctx: &Ctx, scanned: &AtomicU64) -> Result<u64, String> {
         let variants: Vec<(&str, Box<dyn Fn(&mut Written)>)> = vec![
             ("accepted", Box::new(|_w: &mut Written| {})),
             ("accepted-fault-50", Box::new(|w: &mut Written| w.set("fault_percentage", "50"))),
+            // the seed written in upper-case / mixed-case hexadecimal (legal spellings)
+            ("accepted-seed-upper-case", Box::new(|w: &mut Written| { let s = w.get("seed").unwrap_or("").to_uppercase(); w.set("seed", &s) })),
+            ("accepted-seed-mixed-case", Box::new(|w: &mut Written| { let s: String = w.get("seed").unwrap_or("").chars().enumerate().map(|(i, c)| if i % 3 == 0 { c.to_ascii_uppercase() } else { c }).collect(); w.set("seed", &s) })),
             ("refused-batch-size", Box::new(|w: &mut Written| w.set("batch_size", "65"))),
             ("refused-port", Box::new(|w: &mut Written| w.set("port", "0"))),
             ("refused-unknown-key", Box::new(|w: &mut Written| w.set("frobnicate", "1"))),
@@ -675,7 +680,7 @@ pub fn c20_process_part(ctx: &Ctx, scanned: &AtomicU64) -> Result<u64, String> {
                 if *what == "refused-unknown-key" && src == Source::Env {
                     continue;
                 }
-                if si > 0 && vi > 3 && src == Source::Env {
+                if si > 0 && vi > 5 && src == Source::Env {
                     continue;
                 }
                 let port = free_port();
